@@ -125,7 +125,9 @@ class Emitter:
         """typing flattens nested unions and removes duplicate members (by type equality)"""
         flat = []
         for m in members:
-            m = self.strip(m)
+            if m[0] == "newtype":       # opaque for typing: a NewType over a Union stays a nested anyOf
+                flat.append(m)
+                continue
             if m[0] == "union":
                 flat.extend(self.flatten_union(m[1]))
             elif m[0] == "opt":
@@ -134,7 +136,7 @@ class Emitter:
                 flat.append(m)
         out, objs = [], []
         for m in flat:
-            o = eval(G.ty_src(m, self.tbl, []), self.ns) if m[0] != "newtype" else None
+            o = eval(G.ty_src(m, self.tbl, []), self.ns)
             if any(o == p for p in objs):
                 continue
             objs.append(o)
@@ -213,6 +215,8 @@ class Emitter:
 
     def lit_json(self, src) -> str:
         v = eval(src, self.ns)
+        if isinstance(v, enum.Enum):
+            v = v.value
         if isinstance(v, bytes):
             return json_term(base64.encodebytes(v).decode())
         return json_term(v)
@@ -225,6 +229,10 @@ class Emitter:
                     continue
                 fs = []
                 for f in d["fields"]:
+                    if f.get("alias_ann") is not None and f.get("alias_meta") is None:
+                        # the schema ignores a deciding Annotated Alias (known finding; K6A/K4 theorems): the
+                        # model has one key per field, so such classes are outside its grammar
+                        raise OutOfModel("annotated alias decides")
                     key = f["alias"] if f["alias"] is not None else f["name"]
                     fs.append(f"(mkF {coq_str(f['name'])} {coq_str(key)} {self.ty(f['type'])} {cbool(f['default'] is not None)} {cbool(f['init'])})")
                 classes.append(f"(mkC {coq_str(d['name'])} {coq_str(d['clsname'])} {cl(fs)})")
@@ -287,6 +295,8 @@ class Emitter:
                     return f"(VEnum {i})"
             return f"(VFlag {coq_z(int(v.value))}%Z)"
         if k == "lit":
+            if isinstance(v, enum.Enum):
+                v = v.value
             if isinstance(v, bytes):
                 return f"(VRaw {json_term(base64.encodebytes(v).decode())})"
             return f"(VRaw {json_term(v)})"
@@ -300,6 +310,15 @@ class Emitter:
                     raise OutOfModel("integral float as mapping key (member name is repr(float))")
                 if a != a:
                     raise OutOfModel("NaN-like mapping key (distinct keys, one member name)")
+            names = []
+            for a in v:
+                b = a.value if isinstance(a, enum.Enum) else a
+                if b is None or isinstance(b, (bool, int, float, str)):
+                    import json as _json
+                    names.append(next(iter(_json.loads(_json.dumps({b: 0})))))
+            if len(set(names)) < len(names):
+                # e.g. {None: 3, 'null': ...}: distinct Python keys, one JSON member name (the JSON round trip merges them)
+                raise OutOfModel("mapping keys collide on the wire")
         if k in ("dict", "mapping", "ordereddict", "defaultdict"):
             return "(VDict " + cl([f"({self.value(t[1], a)}, {self.value(t[2], b)})" for a, b in v.items()]) + ")"
         if k == "counter":
